@@ -644,11 +644,7 @@ fn alloc_faults(g: &mut Grid) {
         }
         match outcome {
             "alloc-error-abort" | "panic" => {}
-            "survived" => {
-                if !out.contains("errors=[] perr=[]") {
-                    g.fail("allocfail-damage", &case, format!("call returned after a refused allocation with damage: {}", out.trim()));
-                }
-            }
+            "survived" => g.fail("allocfail-survived", &case, format!("the call returned although an allocation it requested was refused (it must end in the allocation-error abort): {}", out.trim())),
             _ => g.fail("allocfail-crash", &case, format!("process ended with {} (not the allocation-error abort): a refused allocation was written through; stdout {:?}", code, out)),
         }
     }
